@@ -239,7 +239,8 @@ func (f *Formatter) formatNode(n *html.Node, buf *strings.Builder, depth int) {
 		}
 
 		// Pre blocks - preserve content whitespace and escape entities
-		if n.Data == "pre" {
+		// white space is significant in <pre> and <textarea>
+		if n.Data == "pre" || n.Data == "textarea" {
 			buf.WriteString(indent)
 			buf.WriteString(f.renderOpenTag(n))
 			f.renderPreContent(n, buf)
